@@ -2,10 +2,15 @@
 # usage: bin/seeded-matrix.sh [report-file] [id-regex]  -- runs every seeded mutant (matching id-regex) against the check of
 # its own property (quick tier) in a scratch worktree of /repo (VERIF_REPO), in parallel.
 # /repo itself is never touched. Prints "<id> <prop> DETECTED|MISSED|BROKEN keys...".
-VERIF=$(cd "$(dirname "$0")/.." && pwd)
+SRC=$(cd "$(dirname "$0")/.." && pwd)
 OUT=${1:-/tmp/seeded-matrix.txt}
 FILTER=${2:-.}
 : > "$OUT"
+# work from a snapshot of the machinery, so that /verif can be edited while the matrix runs
+VERIF=/tmp/sm-snapshot-$$
+rm -rf "$VERIF"; mkdir -p "$VERIF"
+cp -r "$SRC/bin" "$SRC/harness" "$SRC/seeded" "$SRC/known_findings.json" "$SRC/properties.jsonl" "$VERIF/"
+trap 'rm -rf "$VERIF"' EXIT
 one() {
   ID=$1; VERIF=$2; OUT=$3
   P=$VERIF/seeded/$ID/patch.diff
